@@ -26,6 +26,10 @@ type Config struct {
 	TLSAvailable      bool  `json:"tls,omitempty"`        // Server.TLSConfig set
 	Timeouts          bool  `json:"timeouts,omitempty"`   // ReadTimeout and WriteTimeout set (1 minute)
 	PeerPause         bool  `json:"peer_pause,omitempty"` // the scripted peer waits 40 s (virtual) before every segment
+	// ReadTO / WriteTO: Server.ReadTimeout / WriteTimeout individually (0: not set); with these the scripted
+	// connection honours the armed read deadline like a real one (a wait that outlasts it ends in a timeout)
+	ReadTO  time.Duration `json:"read_to,omitempty"`
+	WriteTO time.Duration `json:"write_to,omitempty"`
 }
 
 // LogBuf is a concurrency-safe smtp.Logger.
@@ -72,6 +76,9 @@ func (cfg Config) NewServer(be smtp.Backend, log *LogBuf) *smtp.Server {
 	}
 	if cfg.Timeouts {
 		s.ReadTimeout, s.WriteTimeout = time.Minute, time.Minute
+	}
+	if cfg.ReadTO != 0 || cfg.WriteTO != 0 {
+		s.ReadTimeout, s.WriteTimeout = cfg.ReadTO, cfg.WriteTO
 	}
 	s.ErrorLog = log
 	return s
